@@ -43,6 +43,8 @@ enum Cmp {
     CaseInsensitive,
     AlwaysTrue,
     AlwaysFalse,
+    /// not symmetric: the first argument starts with the second
+    StartsWith,
 }
 
 impl Cmp {
@@ -52,6 +54,7 @@ impl Cmp {
             Cmp::CaseInsensitive => a.eq_ignore_ascii_case(b),
             Cmp::AlwaysTrue => true,
             Cmp::AlwaysFalse => false,
+            Cmp::StartsWith => a.starts_with(b),
         }
     }
 }
@@ -166,7 +169,7 @@ fn mutate(a: &ANode, rng: &mut Rng) -> Option<(ANode, bool, &'static str)> {
             n_elems += 1
         }
     });
-    let kind = rng.below(16);
+    let kind = rng.below(17);
     let target = rng.below(n_elems.max(1));
     let mut seen = 0;
     let mut done: Option<(bool, &'static str)> = None;
@@ -289,6 +292,13 @@ fn mutate(a: &ANode, rng: &mut Rng) -> Option<(ANode, bool, &'static str)> {
                     done = Some((true, "missing-child"));
                 }
             }
+            15 => {
+                // an empty text node as the only child of an element that had no children: another child sequence
+                if n.children.is_empty() {
+                    n.children.push(ANode::text(""));
+                    done = Some((true, "empty-text-child-in-childless-element"));
+                }
+            }
             _ => {
                 // upper-case one text (case-insensitive comparator sees no difference)
                 if let Some(c) = n.children.iter_mut().find(|c| c.kind == AKind::Text && c.text.to_ascii_uppercase() != c.text) {
@@ -343,10 +353,17 @@ fn check_pair(ctx: &mut Ctx, xot: &mut Xot, x: (&ANode, Node), y: (&ANode, Node)
         ctx.count("pairs.unequal");
     }
     // deep_equal_xpath with comparators
-    let cmp = *rng.pick(&[Cmp::Exact, Cmp::CaseInsensitive, Cmp::AlwaysTrue, Cmp::AlwaysFalse]);
+    let cmp = *rng.pick(&[Cmp::Exact, Cmp::CaseInsensitive, Cmp::AlwaysTrue, Cmp::AlwaysFalse, Cmp::StartsWith]);
     let wx = xpath_model(ax, ay, cmp);
+    // A comparison that is not symmetric: the statement does not say which tree's string comes first, so either
+    // orientation is accepted - but it has to be the same one for texts, PI data and attribute values
+    let asym = cmp == Cmp::StartsWith;
+    if asym {
+        ctx.count("asymmetric_comparisons");
+    }
+    let wx_rev = xpath_model(ay, ax, cmp);
     match guard(|| xot.deep_equal_xpath(hx, hy, |s, t| cmp.f(s, t))) {
-        Ok(g) if g == wx => ctx.count("deep_equal_xpath.checked"),
+        Ok(g) if g == wx || (asym && g == wx_rev) => ctx.count("deep_equal_xpath.checked"),
         Ok(g) => {
             report(ctx, "deep_equal_xpath", &format!("{:?}", cmp), g.to_string(), wx.to_string());
             return false;
@@ -372,8 +389,9 @@ fn check_pair(ctx: &mut Ctx, xot: &mut Xot, x: (&ANode, Node), y: (&ANode, Node)
             |s, t| cmp.f(s, t),
         )
     });
+    let wa_rev = advanced_model(ay, ax, filt, cmp);
     match r {
-        Ok(g) if g == wa => ctx.count("advanced_deep_equal.checked"),
+        Ok(g) if g == wa || (asym && g == wa_rev) => ctx.count("advanced_deep_equal.checked"),
         Ok(g) => {
             report(ctx, "advanced_deep_equal", &format!("{:?}-{:?}", filt, cmp), g.to_string(), wa.to_string());
             return false;
@@ -549,6 +567,25 @@ impl Monitor for C13 {
                     break;
                 }
             }
+        }
+        if rng.chance(1, 4) {
+            // two trees that differ from the base in opposite directions: every text longer in one, every attribute
+            // value longer in the other (an asymmetric comparison must be applied the same way round to both)
+            let mut t1 = base.clone();
+            t1.walk_mut(&mut |n| {
+                if n.kind == AKind::Text {
+                    n.text.push('!');
+                }
+            });
+            let mut t2 = base.clone();
+            t2.walk_mut(&mut |n| {
+                for (_, v) in n.attrs.iter_mut() {
+                    v.push('!');
+                }
+            });
+            trees.push((t1, "texts-extended"));
+            trees.push((t2, "attribute-values-extended"));
+            ctx.count("opposed_extension_pairs");
         }
         let indep = if rng.chance(1, 3) { gen::gen_element(rng, &cfg) } else { gen::gen_document(rng, &cfg) };
         trees.push((indep, "independent"));
